@@ -40,7 +40,9 @@ func (n *c08Node) Key() string {
 	if m.Mode {
 		b[9] |= 2
 	}
-	return string(b)
+	// plus every register-sized field of the real controller struct (ROM/RAM images excluded by size), so that
+	// hidden controller state — cached bank numbers, a field added later — is never merged away
+	return string(b) + explore.DeepKey(n.p.m.Map.VMBCSave(false), 64)
 }
 
 type c08Snap struct {
